@@ -4,7 +4,7 @@
    lengths fit their wire widths, every floor's lhs/rhs fit their 2-octet counts, UUID floors carry a UUID. *)
 From V Require Import Prelude.Base Prelude.PyInt Spec.Ndr64Epm gen.K_rpc gen.C_rpc.
 From V Require Import Model.Pdu Model.Request Model.RpcLoop Model.Bind Model.Epm.
-From V Require Import Proofs.RpcKernels Proofs.RpcEpm Proofs.RpcC18 Proofs.RpcExamples.
+From V Require Import Proofs.RpcKernels Proofs.RpcEpm Proofs.RpcC18 Proofs.RpcExamples Proofs.RpcTotal.
 
 (* the count guard regenerated from EptMapResult.unpack admits exactly the counts whose referent array fits *)
 Theorem C18_count_guard : forall tower_count n,
@@ -31,6 +31,21 @@ Theorem C18_floor_as_sent : forall p l r, fl_protocol (floor_of_spec (p, l, r)) 
   /\ floor_tcp_port (floor_of_spec (p, l, r)) = if p =? tcp_protocol_id then Some (be_val r) else None.
 Proof. exact (fun p l r => conj eq_refl (conj eq_refl (conj eq_refl (floor_tcp_port_spec p l r)))). Qed.
 Print Assumptions C18_floor_as_sent.
+
+(* ANY reply (arbitrary octets, any announced tower / floor counts): with fuel = length + 1 the decoder never runs
+   out of fuel (it terminates), the loop iterations (towers + floors) are at most the length of the reply, and at
+   most length / 8 towers are kept (memory) *)
+Theorem C18_linear : forall bs fuel, len bs < Z.of_nat fuel ->
+  ept_map_result_unpack fuel bs <> Raise OutOfFuel /\
+  forall m t, ept_map_result_unpack fuel bs = Ok (m, t) -> 0 <= t <= len bs /\ 8 * len (er_towers m) <= len bs.
+Proof. exact ept_map_result_unpack_total. Qed.
+Print Assumptions C18_linear.
+
+Theorem C18_linear_process : forall bs fuel, len bs < Z.of_nat fuel ->
+  process_ept_map_result fuel bs <> Raise OutOfFuel /\
+  forall port t, process_ept_map_result fuel bs = Ok (port, t) -> 0 <= t <= len bs.
+Proof. exact process_ept_map_result_total. Qed.
+Print Assumptions C18_linear_process.
 
 Example C18_example : wf_reply None 4 ex_towers 0 = true /\ spec_tcp_port ex_towers = Some 49664
   /\ wf_reply None 4 ex_towers 382312662 = true.
